@@ -13,7 +13,7 @@ ID = 'C05'
 CRATES = ['jj-lib', 'jj-core']
 NATIVE = 'c05'
 BOUNDS = {
-    'quick': '2-sided conflicts (3 terms), every marker style (diff, diff-experimental, snapshot, git), unlabeled and labeled; each term one line of one symbolic byte (LF / no final newline on a side / CRLF files / an empty side); one term a run of 7 copies of a symbolic byte (marker look-alike); per job at most ONE symbolic byte is unconstrained (any value except CR/LF), the others are any non-marker non-whitespace byte; the no-final-newline / empty-side / CRLF shapes only with all bytes plain in the quick tier',
+    'quick': '2-sided conflicts (3 terms), every marker style (diff, diff-experimental, snapshot, git), unlabeled and labeled; each term one line of one symbolic byte (LF / no final newline on a side / CRLF files / an empty side); one term a run of 6 or 7 copies of a symbolic byte (marker look-alike, also one shorter than the minimum marker length); per job at most ONE symbolic byte is unconstrained (any value except CR/LF), the others are any non-marker non-whitespace byte; the no-final-newline / empty-side / CRLF shapes only with all bytes plain in the quick tier',
     'thorough': 'adds two-line terms and 3-sided conflicts (5 terms) for snapshot and diff styles',
 }
 ASSUMPTIONS = [
@@ -29,7 +29,9 @@ STYLES = ['Diff', 'DiffExperimental', 'Snapshot', 'Git']
 def jobs(tier):
     out = []
     B = ('b', 1, 'lf'); BX = ('b', 1, 'none'); BC = ('b', 1, 'crlf'); R = ('run', 7, 'lf'); E = None
-    shapes = [([B], [B], [B]), ([BX], [B], [B]), ([B], [B], [BX]), ([], [B], [B]), ([B], [], [B]), ([BC], [BC], [BC]), ([R], [B], [B]), ([B], [R], [B]), ([B], [B], [R])]
+    R6 = ('run', 6, 'lf')
+    shapes = [([B], [B], [B]), ([BX], [B], [B]), ([B], [B], [BX]), ([], [B], [B]), ([B], [], [B]), ([BC], [BC], [BC]), ([R], [B], [B]), ([B], [R], [B]), ([B], [B], [R]),
+              ([R6], [B], [B]), ([B], [R6], [B]), ([B], [B], [R6])]
     if tier == 'thorough':
         shapes += [([B, B], [B], [B]), ([B], [B, B], [B, B]), ([BX], [BX], [BX]), ([B], [B], [B], [B], [B])]
     for si, sh in enumerate(shapes):
